@@ -235,4 +235,88 @@ theorem switch_counts_conserved (s : State) (c : CId) :
   simp only [List.filter_append, List.length_append] at h
   exact h
 
+/-- one iteration of BeginBlockUpdateInfractionParameters -/
+def swStep (s : State) (c : CId) : State :=
+  match (s.get c).qinfr with
+  | some q => s.set { s.get c with infr := some q, qinfr := none }
+  | none => s
+
+theorem beginBlockInfraction_eq (s : State) :
+    beginBlockInfraction s =
+      (tqConsume s.infrQ s.now 200).1.foldl swStep { s with infrQ := (tqConsume s.infrQ s.now 200).2 } := rfl
+
+theorem swStep_other (s : State) (c c' : CId) (h : c' ≠ c) : (swStep s c).get c' = s.get c' := by
+  unfold swStep
+  cases hq : (s.get c).qinfr with
+  | none => rfl
+  | some q =>
+    exact get_set_upd_other s c c' (fun x => { x with infr := some q, qinfr := none }) (fun _ => rfl) h
+
+theorem swStep_self (s : State) (c : CId) : ((swStep s c).get c).qinfr = none := by
+  unfold swStep
+  cases hq : (s.get c).qinfr with
+  | none => exact hq
+  | some q =>
+    show ((s.set ((fun x : Consumer => { x with infr := some q, qinfr := none }) (s.get c))).get c).qinfr = none
+    rw [get_set_upd s c (fun x => { x with infr := some q, qinfr := none }) (fun _ => rfl)]
+
+theorem swStep_none_stable (s : State) (c c' : CId) (h : (s.get c').qinfr = none) :
+    ((swStep s c).get c').qinfr = none := by
+  by_cases hc : c' = c
+  · subst hc; exact swStep_self s c'
+  · rw [swStep_other s c c' hc]; exact h
+
+theorem swLoop_not_mem (ids : List CId) (s : State) (c : CId) (h : ¬ c ∈ ids) :
+    (ids.foldl swStep s).get c = s.get c := by
+  induction ids generalizing s with
+  | nil => rfl
+  | cons d rest ih =>
+    simp only [List.foldl_cons]
+    rw [ih _ (fun hm => h (List.mem_cons_of_mem _ hm))]
+    exact swStep_other s d c (fun e => h (by rw [e]; exact List.mem_cons_self))
+
+theorem swLoop_none_stable (ids : List CId) (s : State) (c : CId) (h : (s.get c).qinfr = none) :
+    ((ids.foldl swStep s).get c).qinfr = none := by
+  induction ids generalizing s with
+  | nil => exact h
+  | cons d rest ih =>
+    simp only [List.foldl_cons]
+    exact ih _ (swStep_none_stable s d c h)
+
+theorem swLoop_mem (ids : List CId) (s : State) (c : CId) (h : c ∈ ids) :
+    ((ids.foldl swStep s).get c).qinfr = none := by
+  induction ids generalizing s with
+  | nil => cases h
+  | cons d rest ih =>
+    simp only [List.foldl_cons]
+    rcases List.mem_cons.mp h with rfl | hm
+    · exact swLoop_none_stable rest _ c (swStep_self s c)
+    · exact ih _ hm
+
+/-- "scheduled exactly once, and only while a change is pending" survives BeginBlock: a change that
+    is applied leaves the schedule and stops being pending; one that is not due stays both -/
+theorem beginBlock_keeps_queuedOnce (s : State) (c : CId) (h : QueuedOnce s c) :
+    QueuedOnce (beginBlockInfraction s) c := by
+  have hcons := switch_counts_conserved s c
+  unfold QueuedOnce at h ⊢
+  rw [beginBlockInfraction_infrQ] at hcons ⊢
+  rw [beginBlockInfraction_eq]
+  by_cases hm : c ∈ (tqConsume s.infrQ s.now 200).1
+  · have hpos : 0 < ((tqConsume s.infrQ s.now 200).1.filter (· == c)).length := by
+      apply List.length_pos_of_mem (a := c)
+      exact List.mem_filter.mpr ⟨hm, by simp⟩
+    rw [swLoop_mem _ _ c hm]
+    have : countIn s.infrQ c ≤ 1 := by rw [h]; split <;> omega
+    simp only [Option.isSome_none, Bool.false_eq_true, if_false]
+    omega
+  · have hzero : ((tqConsume s.infrQ s.now 200).1.filter (· == c)).length = 0 := by
+      rw [List.length_eq_zero_iff, List.filter_eq_nil_iff]
+      intro a ha hac
+      have : a = c := by simpa using hac
+      exact hm (this ▸ ha)
+    rw [swLoop_not_mem _ _ c hm]
+    have hg : ({ s with infrQ := (tqConsume s.infrQ s.now 200).2 } : State).get c = s.get c := rfl
+    rw [hg, ← h]
+    omega
+
 end ICS.Props.C20
